@@ -360,14 +360,24 @@ func check(c Case) engine.Outcome {
 		if n%2 == 0 {
 			// a write that fails (a full disk: the very last chunk is refused) precedes the write
 			// that is checked: what one report could not deliver must not turn up in the next
-			if err := c.Tree.Build().Report(helper.SliceToChan(sn)).WriteToWriter(failAtEnd{}); err == nil {
+			var err error
+			if verdict, detail := pipe.Call(func() { err = c.Tree.Build().Report(helper.SliceToChan(sn)).WriteToWriter(failAtEnd{}) }); verdict != "ok" {
+				o.Failf("%s: WriteToWriter never returned: %s: %s", c.Tree, verdict, detail)
+				return o
+			}
+			if err == nil {
 				o.Failf("%s: WriteToWriter to a writer that refuses the last chunk returned no error", c.Tree)
 				return o
 			}
 			o.Add("rendered_after_a_failed_write", 1)
 		}
 		rep := c.Tree.Build().Report(helper.SliceToChan(sn))
-		if err := rep.WriteToWriter(&buf); err != nil {
+		var err error
+		if verdict, detail := pipe.Call(func() { err = rep.WriteToWriter(&buf) }); verdict != "ok" {
+			o.Failf("%s: WriteToWriter never returned (the page reads its columns row by row): %s: %s", c.Tree, verdict, detail)
+			return o
+		}
+		if err != nil {
 			o.Failf("%s: WriteToWriter: %v", c.Tree, err)
 			return o
 		}
